@@ -368,7 +368,11 @@ sqf::runtime::runtime::result sqf::runtime::runtime::execute(sqf::runtime::runti
             m_is_halt_requested = false;
             m_state = state::running;
             // the maximum runtime applies to this run, not to the lifetime of the VM
+#ifdef SQFVM_RUNTIME_VERIF
+            m_run_timestamp = sqf::verif::now();
+#else
             m_run_timestamp = std::chrono::system_clock::now();
+#endif // SQFVM_RUNTIME_VERIF
             while (!m_contexts.empty())
             {
                 for (size_t i = 0; i < m_contexts.size(); i++)
